@@ -707,4 +707,283 @@ theorem vRunG_spec (c : Cfg) (ns : List VNote) {g g' : VG} (h : vRunG c g ns = s
       simp only [hq] at h
       rw [ih h, vStep_spec hq]; rfl
 
+/-! ### hosted `take` / `drop`: removing the sorted key suffix / prefix one key at a time is `List.take` / `List.drop` -/
+
+/-- keys strictly increasing (`BTreeMap` order; what `drop_or_take` establishes by sorting) -/
+def SortedK (m : AMap) : Prop := (keys m).Pairwise (· < ·)
+
+theorem del_eq_filter (k : Int) (m : AMap) : del k m = m.filter (fun p => !(p.1 == k)) := by
+  induction m with
+  | nil => rfl
+  | cons p r ih =>
+    by_cases h : p.1 = k
+    · simp [del, h, ih]
+    · simp [del, h, ih]
+
+theorem removeSeq_fst (d : Bool) (ks : List Int) (m : AMap) :
+    (removeSeq d m ks).1 = m.filter (fun p => !(ks.contains p.1)) := by
+  induction ks generalizing m with
+  | nil =>
+    simp only [removeSeq, List.contains_nil, Bool.not_false]
+    exact (List.filter_eq_self.mpr (fun _ _ => rfl)).symm
+  | cons k ks ih =>
+    have key : ((del k m).filter fun p => !(ks.contains p.1)) = m.filter (fun p => !((k :: ks).contains p.1)) := by
+      rw [del_eq_filter, List.filter_filter]
+      congr 1
+      funext p
+      by_cases h : p.1 = k
+      · simp [h]
+      · have h' : ¬ k = p.1 := fun e => h e.symm
+        simp [List.contains_cons, h, h', Bool.and_comm]
+    simp only [removeSeq]
+    cases hl : look k m with
+    | none =>
+      simp only []
+      rw [ih, ← key, del_of_look_none k m hl]
+    | some v =>
+      simp only []
+      rw [ih, key]
+
+theorem keys_take (m : AMap) (n : Nat) : keys (m.take n) = (keys m).take n := by simp [keys, List.map_take]
+theorem keys_drop (m : AMap) (n : Nat) : keys (m.drop n) = (keys m).drop n := by simp [keys, List.map_drop]
+
+theorem sorted_split (m : AMap) (n : Nat) (h : SortedK m) :
+    ∀ a ∈ keys (m.take n), ∀ b ∈ keys (m.drop n), a < b := by
+  have : keys m = keys (m.take n) ++ keys (m.drop n) := by
+    rw [keys_take, keys_drop, List.take_append_drop]
+  unfold SortedK at h
+  rw [this, List.pairwise_append] at h
+  exact h.2.2
+
+theorem filter_drop_keys (m : AMap) (n : Nat) (h : SortedK m) :
+    m.filter (fun p => !((keys (m.drop n)).contains p.1)) = m.take n := by
+  have hs := sorted_split m n h
+  have split : ∀ f : Int × Int → Bool, m.filter f = (m.take n).filter f ++ (m.drop n).filter f := by
+    intro f; rw [← List.filter_append, List.take_append_drop]
+  have h1 : (m.take n).filter (fun p => !((keys (m.drop n)).contains p.1)) = m.take n := by
+    rw [List.filter_eq_self]
+    intro p hp
+    simp only [Bool.not_eq_true', List.contains_eq_mem, decide_eq_false_iff_not]
+    intro hmem
+    have ha : p.1 ∈ keys (m.take n) := List.mem_map_of_mem (f := fun (q : Int × Int) => q.1) hp
+    have := hs p.1 ha p.1 hmem
+    omega
+  have h2 : (m.drop n).filter (fun p => !((keys (m.drop n)).contains p.1)) = [] := by
+    rw [List.filter_eq_nil_iff]
+    intro p hp
+    have hb : p.1 ∈ keys (m.drop n) := List.mem_map_of_mem (f := fun (q : Int × Int) => q.1) hp
+    simp [hb]
+  rw [split, h1, h2, List.append_nil]
+
+theorem filter_take_keys (m : AMap) (n : Nat) (h : SortedK m) :
+    m.filter (fun p => !((keys (m.take n)).contains p.1)) = m.drop n := by
+  have hs := sorted_split m n h
+  have split : ∀ f : Int × Int → Bool, m.filter f = (m.take n).filter f ++ (m.drop n).filter f := by
+    intro f; rw [← List.filter_append, List.take_append_drop]
+  have h1 : (m.take n).filter (fun p => !((keys (m.take n)).contains p.1)) = [] := by
+    rw [List.filter_eq_nil_iff]
+    intro p hp
+    have hb : p.1 ∈ keys (m.take n) := List.mem_map_of_mem (f := fun (q : Int × Int) => q.1) hp
+    simp [hb]
+  have h2 : (m.drop n).filter (fun p => !((keys (m.take n)).contains p.1)) = m.drop n := by
+    rw [List.filter_eq_self]
+    intro p hp
+    simp only [Bool.not_eq_true', List.contains_eq_mem, decide_eq_false_iff_not]
+    intro hmem
+    have hb : p.1 ∈ keys (m.drop n) := List.mem_map_of_mem (f := fun (q : Int × Int) => q.1) hp
+    have := hs p.1 hmem p.1 hb
+    omega
+  rw [split, h1, h2, List.nil_append]
+
+/-- on a key-sorted map the hosted operations compute the fold, for all five messages -/
+theorem hEvent_fst_sorted (m : AMap) (e : Msg) (d : Bool) (h : SortedK m) : (hEvent m e d).1 = applyMsg m e := by
+  cases e with
+  | update k v => rfl
+  | remove k =>
+    simp only [hEvent, applyMsg]
+    cases hl : look k m with
+    | none => simp [del_of_look_none k m hl]
+    | some v => rfl
+  | clear => rfl
+  | take n =>
+    simp only [hEvent, applyMsg]
+    by_cases hn : n < m.length
+    · simp only [hn, ↓reduceIte]
+      rw [removeSeq_fst, ← keys_drop]
+      exact filter_drop_keys m n h
+    · simp only [hn, ↓reduceIte]
+      exact (List.take_of_length_le (by omega)).symm
+  | drop n =>
+    simp only [hEvent, applyMsg]
+    by_cases hn : m.length ≤ n
+    · simp only [hn, ↓reduceIte]
+      exact (List.drop_of_length_le hn).symm
+    · simp only [hn, ↓reduceIte]
+      rw [removeSeq_fst, ← keys_take]
+      exact filter_take_keys m n h
+
+theorem mem_keys_ins (k v k' : Int) (m : AMap) (h : k' ∈ keys (ins k v m)) : k' = k ∨ k' ∈ keys m := by
+  induction m with
+  | nil => simp [ins, keys] at h; exact Or.inl h
+  | cons p r ih =>
+    simp only [ins] at h
+    by_cases h1 : k < p.1
+    · simp only [h1, ↓reduceIte, keys, List.map_cons, List.mem_cons] at h
+      simp only [keys, List.map_cons, List.mem_cons]
+      rcases h with h | h | h
+      · exact Or.inl h
+      · exact Or.inr (Or.inl h)
+      · exact Or.inr (Or.inr h)
+    · by_cases h2 : p.1 = k
+      · rw [if_neg h1, if_pos h2] at h
+        simp only [keys, List.map_cons, List.mem_cons] at h
+        simp only [keys, List.map_cons, List.mem_cons]
+        rcases h with h | h
+        · exact Or.inl h
+        · exact Or.inr (Or.inr h)
+      · rw [if_neg h1, if_neg h2] at h
+        simp only [keys, List.map_cons, List.mem_cons] at h
+        simp only [keys, List.map_cons, List.mem_cons]
+        rcases h with h | h
+        · exact Or.inr (Or.inl h)
+        · rcases ih h with h | h
+          · exact Or.inl h
+          · exact Or.inr (Or.inr h)
+
+theorem ins_sorted (k v : Int) (m : AMap) (h : SortedK m) : SortedK (ins k v m) := by
+  induction m with
+  | nil => simp [ins, SortedK, keys]
+  | cons p r ih =>
+    unfold SortedK at h
+    simp only [keys, List.map_cons, List.pairwise_cons] at h
+    obtain ⟨hp, hr⟩ := h
+    simp only [ins]
+    by_cases h1 : k < p.1
+    · simp only [h1, ↓reduceIte]
+      unfold SortedK
+      simp only [keys, List.map_cons, List.pairwise_cons, List.mem_cons]
+      refine ⟨?_, hp, hr⟩
+      intro a ha
+      rcases ha with ha | ha
+      · omega
+      · have := hp a ha; omega
+    · by_cases h2 : p.1 = k
+      · rw [if_neg h1, if_pos h2]
+        unfold SortedK
+        simp only [keys, List.map_cons, List.pairwise_cons]
+        exact ⟨fun a ha => by have := hp a ha; omega, hr⟩
+      · rw [if_neg h1, if_neg h2]
+        unfold SortedK
+        simp only [keys, List.map_cons, List.pairwise_cons]
+        refine ⟨?_, ih hr⟩
+        intro a ha
+        rcases mem_keys_ins k v a r ha with ha | ha
+        · omega
+        · exact hp a ha
+
+theorem sublist_sorted {m m' : AMap} (hs : m'.Sublist m) (h : SortedK m) : SortedK m' :=
+  List.Pairwise.sublist (List.Sublist.map (fun (q : Int × Int) => q.1) hs) h
+
+theorem del_sorted (k : Int) (m : AMap) (h : SortedK m) : SortedK (del k m) := by
+  rw [del_eq_filter]; exact sublist_sorted List.filter_sublist h
+
+theorem applyMsg_sorted (m : AMap) (e : Msg) (h : SortedK m) : SortedK (applyMsg m e) := by
+  cases e with
+  | update k v => exact ins_sorted k v m h
+  | remove k => exact del_sorted k m h
+  | clear => simp [applyMsg, SortedK, keys]
+  | take n => exact sublist_sorted (List.take_sublist n m) h
+  | drop n => exact sublist_sorted (List.drop_sublist n m) h
+
+/-- hosted step for all five messages, carrying the sortedness invariant -/
+theorem relH_step_all {R : Restr} (c : Cfg) {p p' : Phase} {sp : Option AMap} {s : MHosted}
+    {n : Note} (hrel : RelH p sp s) (hso : SortedK s.map) (hp : phaseStep R c p n = some p') :
+    RelH p' (specStep sp n) (s.step c (.note n)).1 ∧ SortedK (s.step c (.note n)).1.map := by
+  have hnil : SortedK ([] : AMap) := by simp [SortedK, keys]
+  cases p with
+  | U =>
+    cases n with
+    | linked =>
+      simp only [phaseStep, Option.some.injEq] at hp
+      subst hp
+      obtain ⟨hs, hsp⟩ := hrel
+      subst hs hsp
+      simp [RelH, MHosted.step, hNext, specStep, hnil]
+    | synced => simp [phaseStep] at hp
+    | unlinked => simp [phaseStep] at hp
+    | ev e => simp [phaseStep] at hp
+  | L =>
+    obtain ⟨hdl, hfin, hsp⟩ := hrel
+    subst hsp
+    cases n with
+    | linked => simp [phaseStep] at hp
+    | synced =>
+      simp only [phaseStep, Option.some.injEq] at hp
+      subst hp
+      simp [RelH, MHosted.step, hNext, specStep, hfin, hso]
+    | unlinked =>
+      simp only [phaseStep, Option.some.injEq] at hp
+      subst hp
+      cases ht : c.tou <;> simp [RelH, MHosted.step, hNext, specStep, hfin, ht, dlAfterUnlinked, hnil]
+    | ev e =>
+      simp only [phaseStep] at hp
+      by_cases hok : evOk R c .L e = true
+      · simp only [hok, ↓reduceIte, Option.some.injEq] at hp
+        subst hp
+        simp [RelH, MHosted.step, hNext, specStep, hfin, hdl, hEvent_fst_sorted _ e _ hso, applyMsg_sorted _ e hso]
+      · simp [hok] at hp
+  | S =>
+    obtain ⟨hdl, hfin, hsp⟩ := hrel
+    subst hsp
+    cases n with
+    | linked => simp [phaseStep] at hp
+    | synced => simp [phaseStep] at hp
+    | unlinked =>
+      simp only [phaseStep, Option.some.injEq] at hp
+      subst hp
+      cases ht : c.tou <;> simp [RelH, MHosted.step, hNext, specStep, hfin, ht, dlAfterUnlinked, hnil]
+    | ev e =>
+      simp only [phaseStep] at hp
+      by_cases hok : evOk R c .S e = true
+      · simp only [hok, ↓reduceIte, Option.some.injEq] at hp
+        subst hp
+        simp [RelH, MHosted.step, hNext, specStep, hfin, hdl, hEvent_fst_sorted _ e _ hso, applyMsg_sorted _ e hso]
+      · simp [hok] at hp
+  | E => cases n <;> simp [phaseStep] at hp
+
+theorem relH_run_all {R : Restr} (c : Cfg) (ns : List Note) {p p' : Phase}
+    {sp : Option AMap} {s : MHosted} (hrel : RelH p sp s) (hso : SortedK s.map) (hp : phaseRun R c p ns = some p') :
+    RelH p' (specRun sp ns) (MHosted.run c s (notes ns)).1 := by
+  induction ns generalizing p sp s with
+  | nil =>
+    simp only [phaseRun, Option.some.injEq] at hp
+    subst hp
+    exact hrel
+  | cons n r ih =>
+    simp only [phaseRun] at hp
+    cases hq : phaseStep R c p n with
+    | none => simp [hq] at hp
+    | some q =>
+      simp only [hq] at hp
+      have := relH_step_all c hrel hso hq
+      exact ih this.1 this.2 hp
+
+theorem sortedK_nil : SortedK ([] : AMap) := by simp [SortedK, keys]
+
+theorem specCbs_not_synced (sp : Option AMap) (d : Bool) (n : Note) (hn : n ≠ .synced) (m : AMap) :
+    Cb.syncedM m ∉ specCbs sp d n := by
+  cases n with
+  | linked => simp [specCbs]
+  | synced => exact absurd rfl hn
+  | unlinked => simp [specCbs]
+  | ev e =>
+    cases e with
+    | update k v => cases d <;> simp [specCbs, cbIf]
+    | remove k =>
+      simp only [specCbs]
+      cases look k (sp.getD []) <;> cases d <;> simp [cbIf]
+    | clear => cases d <;> simp [specCbs, cbIf]
+    | take n => simp [specCbs]
+    | drop n => simp [specCbs]
+
 end SwimVerif.Dl
